@@ -687,12 +687,19 @@ func (r *CheckRun) validate(entries []*EntrySpec) {
 		}
 		if no != eo || strings.Join(nat[i].notes, "\n") != strings.Join(eng[i].notes, "\n") {
 			r.validation.Mismatches = append(r.validation.Mismatches, fmt.Sprintf("%s{%s} vec=%v: native outcome=%q notes=%v; engine outcome=%q notes=%v",
-				c.entry.Func, paramString(c.params), c.vals[:8], nat[i].outcome, nat[i].notes, eng[i].outcome, eng[i].notes))
+				c.entry.Func, paramString(c.params), head8(c.vals), nat[i].outcome, nat[i].notes, eng[i].outcome, eng[i].notes))
 			continue
 		}
 		r.validation.Agreed++
 	}
 	r.logf("[%s] translator validation: %d/%d vectors agree (table=%d random=%d)", r.spec.Property, r.validation.Agreed, r.validation.Vectors, r.validation.TableCases, r.validation.RandomCases)
+}
+
+func head8(v []uint64) []uint64 {
+	if len(v) > 8 {
+		return v[:8]
+	}
+	return v
 }
 
 // ---------------------------------------------------------------------------
